@@ -13,6 +13,8 @@ suite=$(cargo test --workspace --offline 2>&1 | grep -E "^test result" | awk '{p
 fi
 cp "$demo" $crate/tests/$dn.rs
 cargo test --offline -p $crate --test $dn > /tmp/demo_with.$$.log 2>&1; with=$?
+# a change that no longer compiles is not a failing demonstration
+grep -q "^test result" /tmp/demo_with.$$.log || with="BUILD-ERROR" 
 git checkout -q -- .
 cargo test --offline -p $crate --test $dn > /tmp/demo_without.$$.log 2>&1; without=$?
 rm -f $crate/tests/$dn.rs; rmdir $crate/tests 2>/dev/null
